@@ -122,9 +122,9 @@ pub fn run(thorough: bool, seed: u64) -> i32 {
 	// ---------------------------------------------------------------- Miri
 	let miri_flag_sets: Vec<(&'static str, String, u64)> = if thorough {
 		vec![
-			("miri-stacked-borrows", "-Zmiri-ignore-leaks".into(), 220),
-			("miri-tree-borrows", "-Zmiri-ignore-leaks -Zmiri-tree-borrows".into(), 120),
-			("miri-many-seeds", "-Zmiri-ignore-leaks -Zmiri-many-seeds=0..16".into(), 10),
+			("miri-stacked-borrows", "-Zmiri-ignore-leaks".into(), 90),
+			("miri-tree-borrows", "-Zmiri-ignore-leaks -Zmiri-tree-borrows".into(), 50),
+			("miri-many-seeds", "-Zmiri-ignore-leaks -Zmiri-many-seeds=0..16".into(), 3),
 		]
 	} else {
 		vec![
@@ -234,7 +234,7 @@ pub fn run(thorough: bool, seed: u64) -> i32 {
 				bigrams: 0,
 				procs: 0,
 			};
-			let ntr = if thorough { 60_000 } else { 4_000 };
+			let ntr = if thorough { 40_000 } else { 4_000 };
 			let children: Vec<_> = (0..nproc)
 				.map(|p| {
 					let pseed = crate::rng::mix(&[seed, 77, p]);
@@ -306,7 +306,7 @@ pub fn run(thorough: bool, seed: u64) -> i32 {
 				bigrams: 0,
 				procs: 0,
 			};
-			let ntr = if thorough { 40_000 } else { 2_000 };
+			let ntr = if thorough { 20_000 } else { 2_000 };
 			let children: Vec<_> = (0..nproc)
 				.map(|p| {
 					let pseed = crate::rng::mix(&[seed, 78, p]);
